@@ -285,7 +285,9 @@ fn emit_expression_ctx(
             out.push(json!("/str"));
         }
         Expression::Variable(name) => {
-            if let Some(path) = scope.and_then(|s| s.resolve_choice_label(name)) {
+            if let Some(tokens) = context.and_then(|ctx| ctx.consts.get(name)) {
+                out.extend(tokens.iter().cloned())
+            } else if let Some(path) = scope.and_then(|s| s.resolve_choice_label(name)) {
                 out.push(json!({"CNT?": path}))
             } else if let Some(path) = context.and_then(|ctx| ctx.qualified_choice_labels.get(name))
             {
